@@ -256,6 +256,7 @@ pub struct GenOpts {
     pub p_const: f64,
     pub p_wild: f64,
     pub p_str: f64,
+    pub p_sibling: f64,
     pub dom: i64,
 }
 impl Default for GenOpts {
@@ -272,6 +273,7 @@ impl Default for GenOpts {
             p_const: 0.12,
             p_wild: 0.08,
             p_str: 0.1,
+            p_sibling: 0.1,
             dom: 4,
         }
     }
@@ -350,9 +352,15 @@ fn try_gen(rng: &mut StdRng, o: &GenOpts) -> Option<Case> {
         let is_agg = pi > 0 && pa >= 1 && rng.gen_bool(o.p_agg) || (pi == 0 && rng.gen_bool(o.p_agg / 2.0));
         let ncl = if is_agg { 1 } else { rng.gen_range(1..=o.max_clauses) };
         let mut head_str_cols: BTreeSet<usize> = BTreeSet::new();
+        // relation of the first atom of the head's first clause: a later "sibling" clause may start with
+        // the same relation (two join clauses of one head over a common leading relation, each with its
+        // own negated atom - the shape in which per-clause helper relations of a rewrite can collide)
+        let mut first_rel: Option<String> = None;
         for ci in 0..ncl {
+            let sib_clause = !is_agg && ci > 0 && first_rel.is_some() && rng.gen_bool(o.p_sibling);
             // ---- body atoms
             let natoms = *[1usize, 1, 2, 2, 2, 3].choose(rng).unwrap();
+            let natoms = if sib_clause || (ci == 0 && ncl > 1 && o.p_sibling > 0.3) { natoms.max(2) } else { natoms };
             let mut body: Vec<Lit> = vec![];
             let mut bound: Vec<String> = vec![];
             let mut strvars: BTreeSet<String> = BTreeSet::new();
@@ -362,7 +370,9 @@ fn try_gen(rng: &mut StdRng, o: &GenOpts) -> Option<Case> {
                 // choose relation
                 let mut cands: Vec<String> = edbs.clone();
                 cands.extend(idbs[..pi].iter().cloned());
-                let rel = if !is_agg && ci > 0 && ai == 0 && rng.gen_bool(o.p_rec) {
+                let rel = if sib_clause && ai == 0 {
+                    first_rel.clone().unwrap()
+                } else if !is_agg && ci > 0 && ai == 0 && rng.gen_bool(o.p_rec) {
                     p.clone()
                 } else if !is_agg && ci > 0 && rng.gen_bool(o.p_rec / 2.0) {
                     p.clone()
@@ -413,6 +423,9 @@ fn try_gen(rng: &mut StdRng, o: &GenOpts) -> Option<Case> {
                     };
                     args.push(t);
                 }
+                if ci == 0 && ai == 0 && rel != *p {
+                    first_rel = Some(rel.clone());
+                }
                 body.push(Lit::Pos(rel, args));
             }
             if bound.is_empty() {
@@ -446,7 +459,7 @@ fn try_gen(rng: &mut StdRng, o: &GenOpts) -> Option<Case> {
                 body.push(Lit::Cmp(op.to_string(), Expr::T(Term::Var(a)), rhs));
             }
             // ---- negation (relation from EDB or strictly lower IDB)
-            if rng.gen_bool(o.p_neg) {
+            if rng.gen_bool(if sib_clause || (ci == 0 && ncl > 1 && o.p_sibling > 0.3) { 0.7 } else { o.p_neg }) {
                 let mut cands: Vec<String> = edbs.clone();
                 cands.extend(idbs[..pi].iter().cloned());
                 let rel = cands.choose(rng).unwrap().clone();
